@@ -50,11 +50,10 @@ def main():
     mod = importlib.import_module("props." + pid.lower())
     if replay:
         rec = json.load(open(replay))
-        print(json.dumps(rec.get("verdict"), indent=1))
+        print(json.dumps({k: v for k, v in (rec.get("verdict") or {}).items() if k != "event"}, indent=1)[:3000])
         if hasattr(mod, "replay"):
             return mod.replay(rec)
-        print("history:", json.dumps(rec.get("history", []))[:4000])
-        return 0
+        return vlib.replay(rec)
     return mod.run(tier)
 
 
